@@ -176,50 +176,50 @@ theorem localVars_sorted (e : Experiment) : e.localVars.Pairwise (· < ·) := by
   · exact sortDedup_sorted _
   · exact List.Pairwise.nil
 
-theorem keyOf_canonical (salt : String) (xs ys : List String) (env : Env)
+theorem keyOf_canonical (pr : Nat → Bool) (salt : String) (xs ys : List String) (env : Env)
     (hset : ∀ x, x ∈ xs ↔ x ∈ ys) :
-    keyOf salt (sortDedup xs) env = keyOf salt (sortDedup ys) env := by
+    keyOf pr salt (sortDedup xs) env = keyOf pr salt (sortDedup ys) env := by
   rw [sortDedup_ext xs ys hset]
 
 /-! ### shape of the key -/
 
 /-- `str(value of n)` or `NameError` -/
-def keyPart (env : Env) (n : String) : Except Err String :=
+def keyPart (pr : Nat → Bool) (env : Env) (n : String) : Except Err String :=
   match env.get n with
-  | some v => PyVal.pyStr v
+  | some v => PyVal.pyStr pr v
   | none => throw .nameError
 
-theorem keyOf_eq (salt : String) (names : List String) (env : Env) :
-    keyOf salt names env =
-      (names.mapM (keyPart env)).map (fun vals => salt ++ String.join vals) := by
-  show (do let vals ← names.mapM (keyPart env); pure (salt ++ String.join vals)) = _
-  cases names.mapM (keyPart env) <;> rfl
+theorem keyOf_eq (pr : Nat → Bool) (salt : String) (names : List String) (env : Env) :
+    keyOf pr salt names env =
+      (names.mapM (keyPart pr env)).map (fun vals => salt ++ String.join vals) := by
+  show (do let vals ← names.mapM (keyPart pr env); pure (salt ++ String.join vals)) = _
+  cases names.mapM (keyPart pr env) <;> rfl
 
 /-- a successful key is the salt followed by a suffix that does not depend on the salt -/
-theorem keyOf_ok_iff (salt : String) (names : List String) (env : Env) (k : String) :
-    keyOf salt names env = .ok k ↔
-      ∃ vals, names.mapM (keyPart env) = .ok vals ∧ k = salt ++ String.join vals := by
+theorem keyOf_ok_iff (pr : Nat → Bool) (salt : String) (names : List String) (env : Env) (k : String) :
+    keyOf pr salt names env = .ok k ↔
+      ∃ vals, names.mapM (keyPart pr env) = .ok vals ∧ k = salt ++ String.join vals := by
   rw [keyOf_eq]
-  cases names.mapM (keyPart env) with
+  cases names.mapM (keyPart pr env) with
   | error e => simp [Except.map]
   | ok vals => simp [Except.map, eq_comm]
 
-theorem keyOf_nil (salt : String) (env : Env) : keyOf salt [] env = .ok salt := by
+theorem keyOf_nil (pr : Nat → Bool) (salt : String) (env : Env) : keyOf pr salt [] env = .ok salt := by
   rw [keyOf_ok_iff]; exact ⟨[], rfl, by simp⟩
 
-theorem keyOf_single (salt n : String) (env : Env) (v : PyVal) (p : String)
-    (hget : env.get n = some v) (hp : PyVal.pyStr v = .ok p) :
-    keyOf salt [n] env = .ok (salt ++ p) := by
+theorem keyOf_single (pr : Nat → Bool) (salt n : String) (env : Env) (v : PyVal) (p : String)
+    (hget : env.get n = some v) (hp : PyVal.pyStr pr v = .ok p) :
+    keyOf pr salt [n] env = .ok (salt ++ p) := by
   rw [keyOf_ok_iff]
   refine ⟨[p], ?_, by simp⟩
-  have : keyPart env n = .ok p := by simp [keyPart, hget, hp]
+  have : keyPart pr env n = .ok p := by simp [keyPart, hget, hp]
   simp [this]
   rfl
 
 /-- the key is a function of the per-name printed values only -/
-theorem keyOf_congr (salt : String) (names : List String) (env env' : Env)
-    (h : ∀ n ∈ names, keyPart env n = keyPart env' n) :
-    keyOf salt names env = keyOf salt names env' := by
+theorem keyOf_congr (pr : Nat → Bool) (salt : String) (names : List String) (env env' : Env)
+    (h : ∀ n ∈ names, keyPart pr env n = keyPart pr env' n) :
+    keyOf pr salt names env = keyOf pr salt names env' := by
   rw [keyOf_eq, keyOf_eq]
   congr 1
   induction names with
@@ -230,8 +230,8 @@ theorem keyOf_congr (salt : String) (names : List String) (env env' : Env)
 /-! ### injectivity facts -/
 
 /-- same fields, same arguments: equal keys force equal salts -/
-theorem keyOf_salt_injective (s1 s2 : String) (names : List String) (env : Env) (k1 k2 : String)
-    (h1 : keyOf s1 names env = .ok k1) (h2 : keyOf s2 names env = .ok k2) (hk : k1 = k2) :
+theorem keyOf_salt_injective (pr : Nat → Bool) (s1 s2 : String) (names : List String) (env : Env) (k1 k2 : String)
+    (h1 : keyOf pr s1 names env = .ok k1) (h2 : keyOf pr s2 names env = .ok k2) (hk : k1 = k2) :
     s1 = s2 := by
   obtain ⟨v1, hv1, rfl⟩ := (keyOf_ok_iff ..).mp h1
   obtain ⟨v2, hv2, rfl⟩ := (keyOf_ok_iff ..).mp h2
@@ -240,25 +240,25 @@ theorem keyOf_salt_injective (s1 s2 : String) (names : List String) (env : Env) 
   exact (String.append_left_inj _).mp hk
 
 /-- contrapositive: different salts give different keys (when the key exists) -/
-theorem keyOf_ne_of_salt_ne (s1 s2 : String) (names : List String) (env : Env) (k1 k2 : String)
-    (h1 : keyOf s1 names env = .ok k1) (h2 : keyOf s2 names env = .ok k2) (hs : s1 ≠ s2) :
+theorem keyOf_ne_of_salt_ne (pr : Nat → Bool) (s1 s2 : String) (names : List String) (env : Env) (k1 k2 : String)
+    (h1 : keyOf pr s1 names env = .ok k1) (h2 : keyOf pr s2 names env = .ok k2) (hs : s1 ≠ s2) :
     k1 ≠ k2 :=
-  fun hk => hs (keyOf_salt_injective s1 s2 names env k1 k2 h1 h2 hk)
+  fun hk => hs (keyOf_salt_injective pr s1 s2 names env k1 k2 h1 h2 hk)
 
 /-- one splitter field, same salt: values that print differently give different keys -/
-theorem keyOf_single_injective (salt n : String) (env env' : Env) (v v' : PyVal) (p p' : String)
+theorem keyOf_single_injective (pr : Nat → Bool) (salt n : String) (env env' : Env) (v v' : PyVal) (p p' : String)
     (hget : env.get n = some v) (hget' : env'.get n = some v')
-    (hp : PyVal.pyStr v = .ok p) (hp' : PyVal.pyStr v' = .ok p') (hne : p ≠ p') :
-    keyOf salt [n] env ≠ keyOf salt [n] env' := by
-  rw [keyOf_single salt n env v p hget hp, keyOf_single salt n env' v' p' hget' hp']
+    (hp : PyVal.pyStr pr v = .ok p) (hp' : PyVal.pyStr pr v' = .ok p') (hne : p ≠ p') :
+    keyOf pr salt [n] env ≠ keyOf pr salt [n] env' := by
+  rw [keyOf_single pr salt n env v p hget hp, keyOf_single pr salt n env' v' p' hget' hp']
   intro h
   exact hne ((String.append_right_inj _).mp (Except.ok.inj h))
 
 /-- one splitter field: values that print the same give the same key -/
-theorem keyOf_single_same_print (salt n : String) (env env' : Env) (v v' : PyVal)
+theorem keyOf_single_same_print (pr : Nat → Bool) (salt n : String) (env env' : Env) (v v' : PyVal)
     (hget : env.get n = some v) (hget' : env'.get n = some v')
-    (hp : PyVal.pyStr v = PyVal.pyStr v') :
-    keyOf salt [n] env = keyOf salt [n] env' := by
+    (hp : PyVal.pyStr pr v = PyVal.pyStr pr v') :
+    keyOf pr salt [n] env = keyOf pr salt [n] env' := by
   apply keyOf_congr
   intro m hm
   have : m = n := by simpa using hm
@@ -268,13 +268,13 @@ theorem keyOf_single_same_print (salt n : String) (env env' : Env) (v v' : PyVal
 /-! ### documented non-injectivity -/
 
 /-- `str()` erases the type: the int `1` and the string `'1'` print the same -/
-example : PyVal.pyStr (.int 1) = PyVal.pyStr (.str "1") := by rfl
+example (pr : Nat → Bool) : PyVal.pyStr pr (.int 1) = PyVal.pyStr pr (.str "1") := by rfl
 
 /-- no separator between field values: `'ab' + 'c' = 'a' + 'bc'` -/
-example : keyOf "" ["a", "b"] [("a", .str "ab"), ("b", .str "c")]
-        = keyOf "" ["a", "b"] [("a", .str "a"), ("b", .str "bc")] := by rfl
+example (pr : Nat → Bool) : keyOf pr "" ["a", "b"] [("a", .str "ab"), ("b", .str "c")]
+        = keyOf pr "" ["a", "b"] [("a", .str "a"), ("b", .str "bc")] := by rfl
 
 /-- no separator between salt and values either -/
-example : keyOf "s" ["a"] [("a", .str "x")] = keyOf "sx" ["a"] [("a", .str "")] := by rfl
+example (pr : Nat → Bool) : keyOf pr "s" ["a"] [("a", .str "x")] = keyOf pr "sx" ["a"] [("a", .str "")] := by rfl
 
 end Pyab.Proofs
